@@ -1068,14 +1068,69 @@ func c13Reissue(c *Ctx, bf *ast.File) error {
 	if len(pubs) != 1 || !strings.HasPrefix(c13norm(c, pubs[0]), "eventbus.EVMActivatedChain().Publish(ctx,eventbus.EVMActivatedChainEvent{ChainReferenceID:chainReferenceID,SmartContractUniqueID:smartContractUniqueID") {
 		return fmt.Errorf("ActivateChainReferenceID: publication of EVMActivatedChainEvent{ChainReferenceID: chainReferenceID, SmartContractUniqueID: smartContractUniqueID} not recognised")
 	}
-	stale := false
+	// the early return for a contract version not above the active one
+	var early *ast.IfStmt
 	ast.Inspect(act.Body, func(n ast.Node) bool {
 		if is, ok := n.(*ast.IfStmt); ok && c13norm(c, is.Cond) == "chainInfo.GetActiveSmartContractID()>=smartContract.GetId()" && c13norm(c, is.Body) == "{returnnil}" {
-			stale = true
+			early = is
 		}
 		return true
 	})
+	// is the publication reached on that nil return?  Two recognised shapes: (old) the deferred
+	// function publishes whenever retErr == nil; (fixed) it publishes only in the final else of
+	// `if retErr != nil {..} else if !activated {..} else { Publish }`, with `activated := false`
+	// at the top and the only `activated = true` after the early return.
+	guarded := false
+	ast.Inspect(act.Body, func(n ast.Node) bool {
+		is, ok := n.(*ast.IfStmt)
+		if !ok || c13norm(c, is.Cond) != "!activated" {
+			return true
+		}
+		if eb, ok := is.Else.(*ast.BlockStmt); ok && pubs[0].Pos() > eb.Pos() && pubs[0].End() < eb.End() && len(Calls(is.Body, "Publish")) == 0 {
+			guarded = true
+		}
+		return true
+	})
+	stale := early != nil
+	if guarded {
+		nInit, nSet := 0, 0
+		okPos := true
+		ast.Inspect(act.Body, func(n ast.Node) bool {
+			as, ok := n.(*ast.AssignStmt)
+			if !ok || len(as.Lhs) != 1 || c13norm(c, as.Lhs[0]) != "activated" {
+				return true
+			}
+			switch c13norm(c, as) {
+			case "activated:=false":
+				nInit++
+			case "activated=true":
+				nSet++
+				if early == nil || as.Pos() < early.End() {
+					okPos = false
+				}
+			default:
+				okPos = false
+			}
+			return true
+		})
+		if nInit != 1 || nSet != 1 || !okPos {
+			return fmt.Errorf("ActivateChainReferenceID: the `activated` flag guarding the event is not `activated := false` once and `activated = true` once after the early return")
+		}
+		stale = false
+	} else if func() bool {
+		used := false
+		ast.Inspect(act.Body, func(n ast.Node) bool {
+			if id, ok := n.(*ast.Ident); ok && id.Name == "activated" {
+				used = true
+			}
+			return true
+		})
+		return used
+	}() {
+		return fmt.Errorf("ActivateChainReferenceID: unrecognised use of an `activated` flag around the event publication")
+	}
 	c.P("Definition stale_activation_still_publishes_event : bool := %v.", stale)
+	c.Info("stale_activation_still_publishes_event", stale)
 	return nil
 }
 
